@@ -1,6 +1,79 @@
+/-
+Helpers for `Props/C04History`: the content (`absBk`) of a start-of-transaction bucket
+(`origOkG`) is the same for EVERY fuel that covers the bucket NESTING (`nestOk`) — `absBk` recurses
+along the nesting only, it never descends into a tree, so the `depth t ≤ f` clauses of `origOkG`
+play no role for it.
+-/
 import Bolt.Lemmas.BktRoot
 import Bolt.Lemmas.BktMove
 namespace Bolt.Bkt.BktHistoryL
-open Bolt Bolt.BTree Bolt.Bkt
+open Bolt Bolt.BTree Bolt.Bkt Bolt.Bkt.BktCommitL
+
+/-- the fuel `f` covers the nesting of the (attached) sub-buckets of `b`: one unit per level -/
+def nestOk : Nat → Bk → Bool
+  | 0, _ => false
+  | f+1, .mk _ _ _ o => o.all (fun p => nestOk f p.2)
+
+theorem nestOk_zero (b : Bk) : nestOk 0 b = false := by
+  cases b; rfl
+
+theorem nestOk_succ (f r s : Nat) (t : N) (o : List (Bytes × Bk)) :
+    nestOk (f+1) (.mk r s t o) = true ↔ ∀ p ∈ o, nestOk f p.2 = true := by
+  rw [nestOk]
+  simp only [List.all_eq_true]
+
+/-- `origOkG` covers the nesting -/
+theorem nestOk_of_origOkG (ids : Bool) : ∀ (f : Nat) (b : Bk), origOkG ids f b = true → nestOk f b = true
+  | 0, b, h => by rw [origOkG_zero] at h; cases h
+  | f+1, .mk r s t o, h => by
+    obtain ⟨_, _, _, _, h5⟩ := (origOkG_succ ..).mp h
+    rw [nestOk_succ]
+    intro p hp
+    exact nestOk_of_origOkG ids f p.2 (h5 p hp)
+
+theorem nestOk_mono : ∀ (f : Nat) (b : Bk), nestOk f b = true → ∀ f', f ≤ f' → nestOk f' b = true
+  | 0, b, h, _, _ => by rw [nestOk_zero] at h; cases h
+  | f+1, .mk r s t o, h, 0, hle => by omega
+  | f+1, .mk r s t o, h, f'+1, hle => by
+    rw [nestOk_succ] at h ⊢
+    intro p hp
+    exact nestOk_mono f p.2 (h p hp) f' (by omega)
+
+/-- the content of a start-of-transaction bucket is the same for every fuel covering its nesting
+    (smaller or larger than the fuel of `origOkG`), for every `orig` and path -/
+theorem absBk_nest (ids : Bool) : ∀ (f : Nat) (c : Bk), origOkG ids f c = true → ∀ F', nestOk F' c = true →
+    ∀ (X : Bk) (p : List Bytes), absBk X F' p c = absBk c f [] c
+  | 0, c, h, _, _, _, _ => by rw [origOkG_zero] at h; cases h
+  | f+1, .mk r s t o, h, 0, hn, _, _ => by rw [nestOk_zero] at hn; cases hn
+  | f+1, .mk r s t o, h, F'+1, hn, X, p => by
+    obtain ⟨_, _, _, h4, h5⟩ := (origOkG_succ ..).mp h
+    rw [nestOk_succ] at hn
+    rw [absBk_succ, absBk_succ]
+    congr 1
+    apply List.map_congr_left
+    intro x hx
+    by_cases hb : x.2.1 = true
+    · rw [if_pos hb, if_pos hb]
+      have hnm : x.1 ∈ bucketNames t := by rw [bucketNames_nf]; exact mem_namesOf hx hb
+      have hs : (lookupBk x.1 o).isSome = true := by rw [lookupBk_isSome_iff, h4]; exact hnm
+      obtain ⟨c', hc'⟩ := Option.isSome_iff_exists.mp hs
+      have hm := lookupBk_mem hc'
+      have h0 := h5 _ hm
+      have e1 : childAbs X F' p (Bk.mk r s t o).opened x.1 = absBk X F' (p ++ [x.1]) c' := childAbs_some hc'
+      have e2 : childAbs (Bk.mk r s t o) f [] (Bk.mk r s t o).opened x.1 =
+          absBk (Bk.mk r s t o) f ([] ++ [x.1]) c' := childAbs_some hc'
+      rw [e1, e2, absBk_nest ids f c' h0 F' (hn _ hm) X (p ++ [x.1]),
+        absBk_nest ids f c' h0 f (nestOk_of_origOkG ids f c' h0) (Bk.mk r s t o) ([] ++ [x.1])]
+    · rw [if_neg hb, if_neg hb]
+
+/-- two fuels covering the nesting give the same content -/
+theorem absBk_nest2 (ids : Bool) (f : Nat) (c : Bk) (h : origOkG ids f c = true) (F1 F2 : Nat)
+    (h1 : nestOk F1 c = true) (h2 : nestOk F2 c = true) (X Y : Bk) (p q : List Bytes) :
+    absBk X F1 p c = absBk Y F2 q c := by
+  rw [absBk_nest ids f c h F1 h1 X p, absBk_nest ids f c h F2 h2 Y q]
+
+/-- `origOk` (distinct page ids) implies `origShapeOk` -/
+theorem shape_of_origOk (f : Nat) (b : Bk) (h : origOk f b = true) : origShapeOk f b = true :=
+  origOkG_mono true f b h f (Nat.le_refl _)
 
 end Bolt.Bkt.BktHistoryL
